@@ -221,9 +221,6 @@ def run_schedule(fam, kind, impl, rng, rec, idx):
     w0 = walker.walk(ls.c, is_mapping)
     if w0.errors:
         return
-    if w0.inline_nonroot:
-        rec.ev('skipped-F22-shape')
-        return
     connA.commit()
     if w0.height >= 3:
         rec.ev('height>=3')
@@ -297,9 +294,11 @@ def run_schedule(fam, kind, impl, rng, rec, idx):
             return          # C03's business
         txs.append(dict(conn=conn, tree=tree, ops=ops, model=model,
                         inline=wt.inline_nonroot))
-    if any(t['inline'] for t in txs):
-        rec.ev('skipped-F22-shape')
-        return
+    f22 = any(t['inline'] for t in txs)
+    if f22:
+        # a committed non-root node in the 1-tuple (inline leaf) form: the
+        # stored tree may come back F22-damaged (recorded finding)
+        rec.ev('f22-shape-in-transaction')
     rec.ev('scenario:' + scen)
     rec.evaluations += 1
     B, C = txs
@@ -340,6 +339,8 @@ def run_schedule(fam, kind, impl, rng, rec, idx):
     errs += serrs
     info = dict(b_ops=brief(B['ops'], 300), c_ops=brief(C['ops'], 300),
                 outcome=outcome, **desc)
+    if f22:
+        info['finding'] = 'F22'
     if errs:
         rec.violation('stored-tree-damaged', errors=errs[:3], **info)
         return
